@@ -27,6 +27,6 @@ cp "$DEMO" "$W/$PKGDIR/"
 rm -f "$W/$PKGDIR/$(basename "$DEMO")"
 for id in "$@"; do
   echo "--- check $id $TIER on the seeded tree"
-  VERIF_REPO="$W" VERIF_DIR=/tmp/sv/vd.$$ sh -c 'mkdir -p $VERIF_DIR && ln -sfn /verif/harness $VERIF_DIR/harness && cp /verif/known_findings.json $VERIF_DIR/ && /verif/bin/symgo check -workers 16 '"$id $TIER"' 2>&1 | grep -v "^INCONCLUSIVE: .*native differential" | cut -c1-400 | tail -8'
+  VERIF_REPO="$W" VERIF_DIR=/tmp/sv/vd.$$ sh -c 'mkdir -p $VERIF_DIR && ln -sfn ${VERIF_HARNESS:-/verif/harness} $VERIF_DIR/harness && cp /verif/known_findings.json $VERIF_DIR/ && ${SYMGO_BIN:-/verif/bin/symgo} check -workers ${SYMGO_WORKERS:-16} '"$id $TIER"' 2>&1 | grep -v "^INCONCLUSIVE: .*native differential" | cut -c1-400 | tail -8'
 done
 rm -rf /tmp/sv/vd.$$
